@@ -25,6 +25,54 @@ THE SOFTWARE.
 
 # {{{ fuse_two_phases
 
+def _disambiguate_and_fuse(statements_a, statements_b, should_disambiguate_name):
+    """Like :func:`pymbolic.imperative.transform.disambiguate_and_fuse`, but
+    only variables are renamed. The function namespace and the variable
+    namespace are distinct, so a function keeps its name even if a variable
+    of the same name is renamed.
+    """
+    from immutabledict import immutabledict
+    from pymbolic import var
+    from pymbolic.imperative.analysis import get_all_used_identifiers
+    from pymbolic.imperative.transform import (
+        fuse_statement_streams_with_unique_ids)
+    from pymbolic.mapper.substitutor import SubstitutionMapper, make_subst_func
+    from pytools import UniqueNameGenerator
+
+    id_a = get_all_used_identifiers(statements_a)
+    id_b = get_all_used_identifiers(statements_b)
+    vng = UniqueNameGenerator(id_a | id_b)
+
+    subst_b = {}
+    for clash in id_a & id_b:
+        if should_disambiguate_name(clash):
+            subst_b[clash] = var(vng(clash))
+
+    class VariableRenamer(SubstitutionMapper):
+        def map_call(self, expr):
+            return type(expr)(
+                    expr.function,
+                    tuple(self.rec(par) for par in expr.parameters))
+
+        def map_call_with_kwargs(self, expr):
+            return type(expr)(
+                    expr.function,
+                    tuple(self.rec(par) for par in expr.parameters),
+                    immutabledict({
+                        key: self.rec(val)
+                        for key, val in expr.kw_parameters.items()}))
+
+    subst_map = VariableRenamer(make_subst_func(subst_b))
+
+    statements_b = [
+            stmt.map_expressions(subst_map) for stmt in statements_b]
+
+    fused, old_b_id_to_new_b_id = fuse_statement_streams_with_unique_ids(
+            statements_a, statements_b)
+
+    return fused, subst_b, old_b_id_to_new_b_id
+
+
 def fuse_two_phases(phase_name, phase1, phase2, should_disambiguate_name=None):
     from dagrt.language import ExecutionPhase
     if phase1 is not None and phase2 is not None:
@@ -41,8 +89,7 @@ def fuse_two_phases(phase_name, phase1, phase2, should_disambiguate_name=None):
             def should_disambiguate_name(name):
                 return not is_state_variable(name)
 
-        from pymbolic.imperative.transform import disambiguate_and_fuse
-        new_statements, _, old_2_id_to_new_2_id = disambiguate_and_fuse(
+        new_statements, _, old_2_id_to_new_2_id = _disambiguate_and_fuse(
                 phase1.statements, phase2.statements,
                 should_disambiguate_name)
 
